@@ -24,7 +24,7 @@ func configs() []config {
 		{"v6-cubic-nosack", netsim.PairCfg{V6: true, SACK: false, CC: "cubic", MTU: 1500, BindAddr: true}},
 		// keep-alive with a 5 ms idle time on both endpoints: probes are answered, a healthy
 		// connection must never be given up (4 unanswered probes would be needed)
-		{"v4-reno-keepalive", netsim.PairCfg{V6: false, SACK: true, CC: "reno", MTU: 1500, KeepaliveMs: 5}},
+		{"v4-reno-keepalive", netsim.PairCfg{V6: false, SACK: true, CC: "reno", MTU: 1500, KeepaliveMs: 5, DualListener: true}},
 		// the active (resp. passive) opener's initial sequence number sits below 2^32 by the
 		// receive window plus half the data: the right edge of the peer's window crosses the
 		// wrap point while the data has not yet (the value is filled in by withRcvBuf)
@@ -238,6 +238,7 @@ func genCase(rt *rapid.T) Case {
 	c.Cfg.CC = rapid.SampledFrom([]string{"reno", "cubic"}).Draw(rt, "cc")
 	c.Cfg.MTU = rapid.SampledFrom([]int{1280, 1500, 9000}).Draw(rt, "mtu")
 	c.Cfg.BindAddr = rapid.Bool().Draw(rt, "bind-addr")
+	c.Cfg.DualListener = !c.Cfg.V6 && rapid.IntRange(0, 2).Draw(rt, "dual-listener") == 1
 	c.Cfg.RcvBuf = rapid.SampledFrom([]int{0, 0, 0, 4096, 16384, 65536}).Draw(rt, "rcvbuf")
 	c.Cfg = withRcvBuf(c.Sc, c.Cfg)
 	// sequence-number placement: next to a wrap point, at most (bytes sent + receive window)
